@@ -23,7 +23,7 @@ class Ref(object):
 def make_reference(rng, work, n_levels=None, n_leaves=None, n_genes=None,
                    cells_per_leaf=(4, 10), encoding='csr', name='ref',
                    rich=False, forest=None, nested_siblings=False,
-                   numbered=False):
+                   numbered=False, pad_labels=False):
     """
     labelled raw-count reference with separable clusters; rich=True: the
     root and at least one node of every other non-leaf level have two or
@@ -57,6 +57,21 @@ def make_reference(rng, work, n_levels=None, n_leaves=None, n_genes=None,
         ren = {lv: {n: str(i) for i, n in enumerate(
             [model.nodes[lv][j] for j in rng.permutation(
                 len(model.nodes[lv]))])} for lv in model.hierarchy}
+        nodes = {lv: [ren[lv][n] for n in model.nodes[lv]]
+                 for lv in model.hierarchy}
+        parent = {}
+        for li, lv in enumerate(model.hierarchy[1:], start=1):
+            up = model.hierarchy[li - 1]
+            parent[lv] = {ren[lv][n]: ren[up][p]
+                          for n, p in model.parent[lv].items()}
+        model = gen.TaxModel(model.hierarchy, nodes, parent)
+    if pad_labels:
+        # a few labels with a leading or a trailing blank (valid obs
+        # values; the name of a cluster includes them)
+        ren = {lv: {n: n for n in model.nodes[lv]} for lv in model.hierarchy}
+        for lv in model.hierarchy:
+            for k, n in enumerate(list(model.nodes[lv])[:2]):
+                ren[lv][n] = (n + ' ') if k % 2 == 0 else (' ' + n)
         nodes = {lv: [ren[lv][n] for n in model.nodes[lv]]
                  for lv in model.hierarchy}
         parent = {}
@@ -135,7 +150,8 @@ def run_stats(ref, out, tmp_dir, n_processors=2, rows_at_a_time=7,
 
 
 def run_stats_with_tree(ref, out, tmp_dir, tree_dict, n_processors=2,
-                        rows_at_a_time=7, normalization='raw'):
+                        rows_at_a_time=7, normalization='raw',
+                        copy_data_over=False):
     """the statistics stage entered with an explicit taxonomy tree"""
     from cell_type_mapper.diff_exp.precompute_from_anndata import (
         precompute_summary_stats_from_h5ad_and_tree)
@@ -145,7 +161,7 @@ def run_stats_with_tree(ref, out, tmp_dir, tree_dict, n_processors=2,
             data_path=ref.path, taxonomy_tree=TaxonomyTree(data=tree_dict),
             output_path=out, rows_at_a_time=rows_at_a_time,
             normalization=normalization, tmp_dir=str(tmp_dir),
-            n_processors=n_processors)
+            n_processors=n_processors, copy_data_over=copy_data_over)
 
 
 def run_ref_markers(stats_path, out, tmp_dir, n_processors=2, max_gb=1.0,
